@@ -1059,6 +1059,9 @@ def one_case(ctx, cname, rng, index):
     call(h, 'add_node', node_id=v('only-h'), label=A.CLASS_NetworkNode, props={A.PROP_NAME: v('hname'), A.PROP_TYPE: 'Server'})
     call(h, 'add_link', node_a=b['server'], rel=A.REL_HAS, node_b=b['comps'][0])
     call(h, 'add_link', node_a=b['server'], rel=A.REL_CONNECTS, node_b=b['switch'], props=None)
+    # an end node that does not exist (caller mistake / deleted meanwhile): whatever the backend then says to the driver is judged too
+    call(h, 'add_link', node_a=b['server'], rel=A.REL_CONNECTS, node_b=v('missing-end'))
+    call(h, 'add_link', node_a=v('missing-end'), rel=A.REL_HAS, node_b=b['switch'], props={'Weight': v('w')})
     ctx.sample({'class': cname, 'graph_id': gid, 'book': {k: b[k] for k in ('nodes', 'comps', 'links')},
                 'hostile_primary_values': env.hostile})
     drive_generic(env, g, b, h)
